@@ -442,12 +442,8 @@ def gen_c09(rng, n):
             stat = rng.choice(["sum", "frequency", "density", "probability"])
             how = rng.choice(["breaks", "ii", "unit"])
             if how == "unit":
-                import math
-                if cl == "left":
-                    br = list(range(math.floor(lo_v), math.floor(hi_v) + 2))
-                else:
-                    br = list(range(math.ceil(lo_v) - 1, math.ceil(hi_v) + 1))
-                bins = list(zip(br, br[1:]))
+                b.add(f"hist {a} {cl} {stat} unit" + (" ;; dflt=1" if rng.random() < 0.3 else ""), focus=True)
+                continue
             elif how == "breaks":
                 start = lo_v - rng.choice([0, Fraction(1, 2), 1])
                 br = [start]
